@@ -547,7 +547,7 @@ def run(ck):
     # ------------------------------------------------------------ E2 single interruption at prefix ends round the ring
     site = Site((2, 2, 2))
     try:
-        step = 1 if ck.tier == "thorough" else 23
+        step = 1 if ck.tier == "thorough" else 41
         idxs = sorted(set(list(range((ck.seed * 7) % step, 1024, step)) + [0, 1, 516, 517, 518, 1022, 1023]))
         for i in idxs:
             if not mine() or (not ck.more(min_cases=10 ** 9)):
@@ -786,7 +786,9 @@ def run(ck):
                 for n in range(h0.saves):
                     for st in SAVE_STEPS:
                         kpoints.append(("save", (n, st)))
-                for kp in kpoints:
+                for kpi, kp in enumerate(kpoints):
+                    if ck.tier == "quick" and layout == (2, 2, 2) and (kpi + ck.seed) % 2:
+                        continue
                     if not mine():
                         continue
                     if (not ck.more(min_cases=10 ** 9)):
